@@ -129,7 +129,7 @@ def parse_case(line):
         assert v == s, (v, s)
 
     a = ni()
-    c.arch, c.big_endian = a & 0xffff, a >> 16       # arch token + 65536: the whole dump is written big-endian
+    c.arch, c.big_endian, c.mem64 = a & 0xffff, (a >> 16) & 1, (a >> 17) & 1   # + 65536: big-endian dump; + 131072: Memory64List
     c.platform, c.time = ni(), ni()
     ex("T")
     c.threads = [dict(id=ni(), ck=ni(), ip=ni(), sp=ni(), sidx=ni(), sbase=ni()) for _ in range(ni())]
@@ -436,6 +436,8 @@ class C14(PropBase):
             v &= U64
             return v & U32 if trunc else v
 
+        # the memory regions live in a Memory64List (full-dump layout); the threads then have null stack descriptors
+        mem64 = 1 if short_streams and rng.chance(1, 8) else 0
         n = rng.choice([0, 1, 2, 3, 4, 5, 8, 16, 32]) if rng.chance(1, 3) else rng.range(1, 6)
         idpool = [rng.below(1 << 32) if rng.chance(1, 4) else rng.range(1, 9) for _ in range(max(1, (n + 1) // 2 + rng.below(3)))]
         if rng.chance(1, 10):
@@ -443,6 +445,8 @@ class C14(PropBase):
         threads = []
         for _ in range(n):
             sidx = rng.below(len(mems)) if mems and rng.chance(3, 4) else -1
+            if mem64:
+                sidx = -1
             if sidx >= 0:
                 sbase = mems[sidx][0]
             elif mems and rng.chance(2, 3):
@@ -484,6 +488,7 @@ class C14(PropBase):
                 misc = (rng.choice([20, 23, 0, 4, 25, 45, 232, 1364]),) + misc[1:]
         c = Case()
         c.big_endian = 1 if short_streams and rng.chance(1, 8) else 0
+        c.mem64 = mem64
         c.bp_form = bp_form
         c.arch, c.platform, c.time = arch, platform, rng.choice([0, 1262805309, U32, rng.below(1 << 32)])
         c.threads, c.names, c.exc, c.bp, c.misc, c.status, c.mods, c.unl, c.mems = threads, names, exc, bp, misc, status, mods, unl, mems
@@ -493,6 +498,7 @@ class C14(PropBase):
         dist["with_breakpad"] = dist.get("with_breakpad", 0) + (bp is not None)
         dist["exc_thread_is_dump_thread"] = dist.get("exc_thread_is_dump_thread", 0) + (exc is not None and dump_tid == exc["tid"])
         dist["big_endian"] = dist.get("big_endian", 0) + c.big_endian
+        dist["memory64_list"] = dist.get("memory64_list", 0) + mem64
         dist["duplicate_ids"] = dist.get("duplicate_ids", 0) + (len(set(tids)) < len(tids))
         c.bits32, c.trunc = bits32, trunc
         return c
@@ -504,7 +510,7 @@ class C14(PropBase):
         z = dict(tid=0, code=0, flags=0, np=0, i0=0, i1=0, i2=0, addr=0, ck=0, ip=0, sp=0)
         e = exc or z
         lk = []          # membership is no longer handed to the model: it uses the tables regenerated from the source (gen_lk)
-        parts = ["%d %d %d" % (arch + 65536 * getattr(c, "big_endian", 0), platform, c.time), "T %d" % n]
+        parts = ["%d %d %d" % (arch + 65536 * getattr(c, "big_endian", 0) + 131072 * getattr(c, "mem64", 0), platform, c.time), "T %d" % n]
         parts += ["%d %d %d %d %d %d" % (t["id"], t["ck"], t["ip"], t["sp"], t["sidx"], t["sbase"]) for t in threads]
         parts.append("N %d" % len(names))
         parts += ["%d %d %d" % nm for nm in names]
